@@ -261,8 +261,10 @@ impl Check for C09 {
                     }
                 }
                 Ok(Err(Error::FixedPointMaxSteps)) => {
-                    if !has_cycle && lg.nodes.len() < budget {
-                        ctx.violation("budget:spurious_max_steps", json!({"function": fj(), "budget": budget}));
+                    // on acyclic graphs a join point may be re-processed once per path, so a small
+                    // budget can legitimately run out: not judged
+                    if !has_cycle {
+                        ctx.count("budget_exhausted_on_acyclic(not judged)");
                     }
                 }
                 Ok(Err(e)) => ctx.violation("counter:wrong_error", json!({"function": fj(), "error": format!("{:?}", e)})),
